@@ -496,6 +496,10 @@ def finish(
                 "case": f.case,
                 "replay": f"./check {prop} --replay <this file>",
                 "proof_failed": proof.failed,
+                "seed": ctx.seed,
+                "tier": ctx.tier,
+                "search_mode": ctx.search_mode,
+                "other_failures": [u.what[:300] for u in unknown[1:6]],
             },
         )
         print(f"VIOLATION property={prop} replay={path}")
@@ -512,6 +516,8 @@ def finish(
             ],
             "build_log_tail": proof.log[-3000:] if not proof.ok else "",
             "searched": res.evaluations,
+            "seed": ctx.seed,
+            "tier": ctx.tier,
         }
         path = write_replay(prop, ctx.seed, payload)
         print(f"VIOLATION property={prop} replay={path} no-failing-input-found")
@@ -587,15 +593,32 @@ def run_check(
         proof = prove(prop, modules, tier)
         if a.replay:
             payload = json.loads(Path(a.replay).read_text())
-            if replay_fn is None or payload.get("kind") == "no-failing-input-found":
-                print(json.dumps(payload, indent=1)[:4000])
-                print("replay: this file names proof obligations / correspondences; re-running the check")
-                res = body(ctx, proof)
-            else:
+            print(json.dumps({k: v for k, v in payload.items() if k != "build_log_tail"}, indent=1, default=str)[:6000])
+            if replay_fn is not None and payload.get("kind") == "failing-input":
                 res = replay_fn(ctx, payload)
-            for f in res.failures:
-                print("REPRODUCED:", f.what)
-            return 1 if (res.failures or res.disagreements or not proof.ok) else 0
+            else:
+                # every case of a run is a function of (property, seed, tier, job number): the run that wrote the file is repeated
+                # against the current tree and the recorded failure is looked for among its failures
+                ctx.cleanup()
+                ctx = Ctx(prop, payload.get("tier", tier), int(payload.get("seed", a.seed)))
+                print(f"replay: repeating the run seed={ctx.seed} tier={ctx.tier} against the current tree")
+                with QuietStderr():
+                    res = body(ctx, proof)
+                    if payload.get("search_mode") or ((not proof.ok or res.disagreements) and not res.failures):
+                        ctx.search_mode = True
+                        ctx.rng = random.Random(f"{prop}-{ctx.seed}-search")
+                        res.merge(body(ctx, proof))
+            want = payload.get("what")
+            hit = [f for f in res.failures if want and f.what == want]
+            for f in hit[:1]:
+                print("REPRODUCED:", f.what[:1000])
+            if want and not hit:
+                print(f"NOT REPRODUCED: the recorded failing input no longer fails ({len(res.failures)} other failure(s), {len(res.disagreements)} disagreement(s) in this run)")
+                for f in res.failures[:3]:
+                    print("OTHER FAILURE:", f.what[:300])
+            if payload.get("kind") == "no-failing-input-found":
+                print("proof obligations that do not check now:", proof.failed or "none", "| correspondence disagreements now:", len(res.disagreements))
+            return 1 if (hit or (payload.get("kind") == "no-failing-input-found" and (res.disagreements or not proof.ok))) else 0
         with QuietStderr():
             res = body(ctx, proof)
         if (not proof.ok or res.disagreements) and not res.failures:
